@@ -255,6 +255,8 @@ pub const CORPUS: &[(&str, &str)] = &[
     ("strict-comparisons", "min x\ns.t.\n    x > 1\n    x + y < 4\n    2 * y > -3\ndefine\n    x, y as Real(0, 10)\n"),
     ("mixed-matrix", "min sum(i in 0..2, j in 0..2) { M[i][j] * x_i } + k * x_0 + T[1][0][1] * x_1\ns.t.\n    x_i >= M[i][0] for i in 0..2\n    x_0 <= M[1][1] + len(M[0])\nwhere\n    let M = [[1, 2], [3, 4.5]]\n    let T = [[[1, 2], [3, 4]], [[5, 6.5], [7, 8]]]\n    let k = M[0][1]\ndefine\n    x_i as Real(0, 20) for i in 0..2\n"),
     ("named-logic-assertions", "solve\ns.t.\n    pick: a_0 xor b_0\n    one_i: a_i implies not b_i for i in 0..2\n    both: (a_0 or b_1) and not (a_1 and b_0)\n    a_1 iff b_1\ndefine\n    a_i, b_i as Boolean for i in 0..2\n"),
+    ("single-name-destructuring", "min sum((a) in M) { a * x } + sum((u) in edges(G)) { x } + sum((_) in enumerate(A)) { x }\ns.t.\n    x >= a for (a) in M\n    x >= 0 for (_) in edges(G)\nwhere\n    let M = [[1, 2], [3, 4]]\n    let A = [5, 6]\n    let G = Graph {\n        P -> [Q: 2],\n        Q\n    }\ndefine\n    x as Real(0, 9)\n"),
+    ("bound-propagation-cycle", "min x\ns.t.\n    x >= y + 1\n    y >= x + 1\n    z >= w + 0.5\n    w >= v + 0.5\n    v >= z + 0.5\ndefine\n    x, y as NonNegativeReal\n    z, w, v as Real(0, Infinity)\n"),
     ("zip-unequal-lengths", "min sum((p, q) in zip(A, B)) { p * x + q } + sum((q, p) in zip(B, A)) { q * x } + sum((p, q, r) in zip(A, B, C)) { (p + q + r) * x }\ns.t.\n    x >= p - q for (p, q) in zip(A, B)\nwhere\n    let A = [1, 2, 3]\n    let B = [4, 5]\n    let C = [6]\ndefine\n    x as Real(0, 9)\n"),
     ("function-constants", "min sum(i in R) { x_i } + sum((v, k) in EN) { v * x_k } + L * x_0\ns.t.\n    x_i >= 1 for i in R\n    x_i <= 8 for i in range(0, 2, closed)\n    x_i >= 0 for i in range(1, 2, not closed)\n    x_0 <= len(range(0, 4, true)) + len(U)\nwhere\n    let R = range(0, 3, false)\n    let closed = true\n    let EN = enumerate([4, 5])\n    let L = len([1, 2])\n    let U = union([1, 2], [2, 3])\ndefine\n    x_i as Real(0, 9) for i in 0..3\n"),
     ("long-multibyte-line", "min sum((c, i) in enumerate([\"\u{141}\u{f3}d\u{17a}\", \"K\u{f8}benhavn\", \"\u{17d}ilina\", \"\u{10c}esk\u{e9} Bud\u{11b}jovice\", \"\u{c5}lesund\", \"\u{d3}buda\", \"\u{15e}anl\u{131}urfa\"])) { (i + 1) * x_i }\ns.t.\n    x_i >= len([\"\u{141}\u{f3}d\u{17a}\", \"K\u{f8}benhavn\", \"\u{17d}ilina\", \"\u{10c}esk\u{e9} Bud\u{11b}jovice\", \"\u{c5}lesund\", \"\u{d3}buda\", \"\u{15e}anl\u{131}urfa\"]) - 7 for i in 0..7\ndefine\n    x_i as Real(0, 9) for i in 0..7\n"),
